@@ -325,6 +325,26 @@ func (f *Frame) shouldInline(fn *ssa.Function) bool {
 	if fn.Synthetic != "" && isRepoFn(fn) {
 		return true
 	}
+	// thin forwarders (one basic block, a handful of instructions): inlined, reported in the notes
+	if isRepoFn(fn) && f.eng.db.Contracts[name] == nil && len(fn.Blocks) == 1 {
+		n := 0
+		calls := 0
+		for _, ins := range fn.Blocks[0].Instrs {
+			switch ins.(type) {
+			case *ssa.DebugRef:
+			case *ssa.Call:
+				calls++
+				n++
+			case *ssa.Go, *ssa.Defer, *ssa.Select, *ssa.Send:
+				return false
+			default:
+				n++
+			}
+		}
+		if n <= 40 && calls <= 2 {
+			return true
+		}
+	}
 	return false
 }
 
@@ -373,7 +393,7 @@ func (f *Frame) applyContract(ins ssa.Instruction, c *Contract, ct *callTarget, 
 			f.eng.specError(c.Func, r, err)
 			continue
 		}
-		if hasTag(r.Tags, "config") {
+		if hasTag(r.Tags, "config") || hasTag(r.Tags, "ghostdef") {
 			// configuration invariant: assumed at the callee, not checked at call sites (listed in evidence)
 			f.root.notes["unchecked configuration precondition of "+c.Func+": "+r.Text] = true
 			f.addHyp(st.pc, t)
